@@ -851,6 +851,38 @@ def raw_token_types(lx):
     return sorted(out)
 
 
+def float_re_ascii_only():
+    """regex fact: can float_re match only ASCII digits?  (re.ASCII flag, or no \\d / \\w category in the pattern)"""
+    p = L.float_re
+    if p.flags & re.ASCII:
+        return True
+    tree = sre_parse.parse(p.pattern, p.flags)
+
+    def has_cat(items):
+        for op, av in items:
+            nm = str(op)
+            if nm == "CATEGORY":
+                return True
+            if nm == "IN":
+                if has_cat(av):
+                    return True
+            elif nm == "SUBPATTERN":
+                if has_cat(list(av[3])):
+                    return True
+            elif nm == "BRANCH":
+                if any(has_cat(list(a)) for a in av[1]):
+                    return True
+            elif nm in ("MAX_REPEAT", "MIN_REPEAT", "POSSESSIVE_REPEAT"):
+                if has_cat(list(av[2])):
+                    return True
+            elif nm in ("ASSERT", "ASSERT_NOT"):
+                if has_cat(list(av[1])):
+                    return True
+        return False
+
+    return not has_cat(list(tree))
+
+
 class WrapVC(VC):
     """One generic iteration of the real `for lineno, token, value_str in stream:` body of Lexer.wrap, for a raw token
     of a given (concrete) type - every type the rule tables can yield - plus an arbitrary other string."""
@@ -914,8 +946,21 @@ class WrapVC(VC):
 
         I.specs["int_obj"] = int_obj
         from ast import literal_eval
-        # literal_eval of a string matching float_re (underscores removed) is a float; overflow gives inf, no exception
-        I.specs[("fn", id(literal_eval))] = A.abstract_fn("literal_eval[float literal]", returns="obj")
+
+        def literal_eval_spec(I_, st, args, kwargs, node):
+            """ast.literal_eval of a string matching float_re (underscores removed): a float (overflow gives inf, no
+            exception) when the digits are ASCII; Python's literal grammar knows no other digits, so a match of the digit class on
+            a non-ASCII decimal digit makes it raise SyntaxError (documented: ValueError / SyntaxError on malformed input)"""
+            models.used("ast.literal_eval[float literal]")
+            out = []
+            if not float_re_ascii_only():
+                s2 = st.fork()
+                out.append((s2, Raised(Exc(SyntaxError, ("invalid character / invalid decimal literal",), tag="float-unicode-digits",
+                                           origin=getattr(node, "lineno", None)))))
+            out.append((st, fresh("float_value", "obj")))
+            return out
+
+        I.specs[("fn", id(literal_eval))] = literal_eval_spec
 
         def token_new(I_, st, args, kwargs, node):
             if len(args) != 3 or kwargs:
@@ -1017,6 +1062,8 @@ class WrapVC(VC):
         w = res.witness or {}
         if w.get("token") == L.TOKEN_INTEGER and "ValueError" in str(w.get("raises")) and "int-digit-limit" in str(w.get("raises")):
             return "int-digit-limit"
+        if w.get("token") == L.TOKEN_FLOAT and "SyntaxError" in str(w.get("raises")) and "float-unicode-digits" in str(w.get("raises")):
+            return "float-unicode-digits"
         return f"{w.get('token')}:{w.get('raises')}"
 
 
@@ -1029,7 +1076,7 @@ def replay_wrap(w):
         n = max(1, min(int(n), 200000))
         cands = ["{{ " + "1" * n + " }}", "{{ 0x" + "f" * n + " }}", "{{ 1_000 }}"]
     elif tok == L.TOKEN_FLOAT:
-        cands = ["{{ 1e999 }}", "{{ 1.5 }}", "{{ 1_0.0_1e1_0 }}", "{{ 9" * 1 + "9" * 400 + ".0 }}"]
+        cands = ["{{ 1e999 }}", "{{ 1.5 }}", "{{ 1_0.0_1e1_0 }}", "{{ 9" * 1 + "9" * 400 + ".0 }}", "{{ 1.5\u0663 }}", "{{ 1e\u0663 }}"]
     elif tok == L.TOKEN_STRING:
         cands = ["{{ '\\x' }}", "{{ '\\N{nope}' }}", "{{ '\\uD800' }}", "{{ 'é\\n' }}", "{{ '\\U99999999' }}"]
     elif tok == L.TOKEN_NAME:
